@@ -21,11 +21,14 @@ def main():
     skip_suite = "--skip-suite" in sys.argv
     race = False
     note = ""
+    label = "%s-%s" % (prop, k)
     for i, a in enumerate(sys.argv):
         if a == "--checks":
             checks = sys.argv[i + 1].split(",")
         if a == "--note":
             note = sys.argv[i + 1]
+        if a == "--label":
+            label = sys.argv[i + 1]
     patch = os.path.join(cand, "patch%s.diff" % k)
     demo = os.path.join(cand, "demo%s_test.go" % k)
     meta = json.load(open(os.path.join(cand, "meta%s.json" % k)))
@@ -43,7 +46,7 @@ def main():
         loc = "tools/rdgen" if "rdgen" in txt else "tools/rddetector"
     names = re.findall(r"^func (Test\w+)\(", src, re.M)
     runre = "^(" + "|".join(names) + ")$" if names else "Demo"
-    wt = "/tmp/rehearse/wt_%s_%s" % (prop, k)
+    wt = "/tmp/rehearse/wt_%s" % label
     shutil.rmtree(wt, ignore_errors=True)
     os.makedirs("/tmp/rehearse", exist_ok=True)
     rc, out = sh("git -C /repo worktree add -q --detach %s HEAD" % wt)
@@ -90,7 +93,7 @@ def main():
     ok = res.get("demo_clean_rc") == 0 and res.get("demo_patched_rc") not in (0, None) and res.get("build_rc") == 0 and (skip_suite or res.get("suite_rc") == 0)
     res["confirmed"] = bool(ok)
     if ok:
-        sd = os.path.join(VERIF, "seeded", "%s-%s" % (prop, k))
+        sd = os.path.join(VERIF, "seeded", label)
         os.makedirs(sd, exist_ok=True)
         shutil.copy(patch, os.path.join(sd, "patch.diff"))
         shutil.copy(demo, os.path.join(sd, "demo_test.go"))
